@@ -48,8 +48,16 @@ class Ctx:
     def add_tlc(self, name, r):
         self.states += r.distinct
         self.transitions += r.generated
-        self.tlc_runs.append({'run': name, 'distinct': r.distinct, 'generated': r.generated,
-                              'wall_s': round(r.wall, 1), 'depth': r.depth})
+        rec = {'run': name, 'distinct': r.distinct, 'generated': r.generated, 'wall_s': round(r.wall, 1), 'depth': r.depth}
+        if getattr(r, 'coverage', None):
+            rec['actions'] = {k: v[0] for k, v in sorted(r.coverage.items())}      # action -> distinct states it produced
+        self.tlc_runs.append(rec)
+
+    def require_actions(self, r, names, what):
+        """vacuity guard: every named action of a design-level model must have produced states in this run (TLC -coverage)"""
+        missing = [n for n in names if r.coverage.get(n, (0, 0))[1] == 0]
+        if missing:
+            raise Machinery('%s: action(s) %s never taken - the properties checked on this model would be vacuous' % (what, missing))
 
     def sample(self, x, limit=6):
         if len(self.samples) < limit:
